@@ -15,7 +15,7 @@ C = {
          "Search over add sequences of the 13 variable-body tables; the walker is written from the specifications' framing rules and never consults the crate; one open known finding (CEDT RDPAS).",
          "4 §C03", "the walker's per-type sizes are my transcription of the specifications (tables/walk.rs)"),
  "C04": ("differential against an independently written specification-layout encoder (refenc.rs), byte for byte",
-         "Search over builder programs of all 22 kinds with biased scalars (single bits, distinct-byte patterns) so that a misplaced, swapped or wrongly sized field is a byte diff; as strong as the reference transcription (DESIGN Appendix A).",
+         "Search over builder programs of all 22 kinds with biased scalars (single bits, distinct-byte patterns) plus a one-field-at-a-time sweep (every scalar zero except one distinct-byte pattern) so that a misplaced, swapped or wrongly sized field is a byte diff; as strong as the reference transcription (DESIGN Appendix A).",
          "4 §C04", "reference layouts transcribed offline from ACPI 6.5/6.6, CXL 3.0, TCG, SPCR, RISC-V; pinned constants listed in DESIGN 3.3"),
  "C05": ("generated interleavings of node kinds with later handle uses; oracle: handle == walker offset of that node, references resolve",
          "Search over PPTT/RHCT/RIMT/VIOT histories; handles are read back through Debug or a probe object and compared with offsets found by the independent walker on every prefix.",
@@ -28,7 +28,7 @@ C = {
  "C09": ("exhaustive path shapes and per-position alphabets + generated paths and malformed strings; oracle: NameString rule and independent decoder",
          "All 510 (count, rooted) shapes and every segment position over its alphabet are enumerated; combinations and malformed strings are generated; the same paths are checked as the name of all 12 named objects.", "4 §C09", "multi-byte UTF-8 segments not generated"),
  "C11": ("exhaustive enumeration of option subsets/orders per structure; oracle: specification bit table + independence + distinguishability",
-         "All option subsets of 23 structures (orders for small subsets, repetitions), FADT's 25 flag values as singles/pairs/random (all 2^25 in thorough).", "4 §C11", "specification bit assignments as transcribed in props/c11.rs"),
+         "All option subsets of ~30 structures (orders for small subsets, repetitions, zero-valued variants of value-carrying options, FADT builder calls in a non-zero context), FADT's 25 flag values as singles/pairs/random (all 2^25 in thorough).", "4 §C11", "specification bit assignments as transcribed in props/c11.rs"),
  "C12": ("bounded-exhaustive and generated assignment sequences; oracle: reference map cell -> last value",
          "All short assignment sequences over all in-range pairs for small SLIT/SLLBI shapes, random sequences for larger ones; matrix region compared after every assignment.", "4 §C12", "none"),
  "C13": ("model-based: operation sequences against a Vec<u8> model, bounded-exhaustive for length <= 2, random up to 600 ops",
@@ -36,7 +36,7 @@ C = {
  "C16": ("exhaustive per-position alphabets (all 1.16e9 EISA ids in thorough) + generated ids/uuids/malformed strings; oracle: specification decompression / ToUUID inverse",
          "Round-trip through independent decoders; malformed classes the property lists must be refused.", "4 §C16", "only the malformed classes the property lists are demanded"),
  "C17": ("exhaustive 256x256 state/byte table + generated operation sequences; oracle: i128 reference sum",
-         "The single-byte operations are decided exhaustively; slice and sink operations by generated sequences.", "4 §C17", "none"),
+         "The single-byte operations, every short slice over a heavy alphabet and every slice length up to 2100 are enumerated; other slice and sink operations by generated sequences; both build profiles (a panic of the accumulator is a violation).", "4 §C17", "none"),
  "C06": ("generated sort-correct term trees built as real nested crate objects; oracle: independent recursive-descent AML parser, parse tree == normal form of the built tree",
          "Search over term trees of every exported constructor (depth <= 6, filler-steered sizes at every PkgLength boundary and nesting level) plus every length-prefixed kind swept through 0..4200 / 2^20; the parser is written from the grammar and opcode table of the specification and is told only method arities.",
          "4 §C06", "the parser covers the grammar subset of DESIGN Appendix B; trees are sort-correct AML"),
@@ -49,7 +49,7 @@ C = {
  "C15": ("differential between alternative construction paths, exhaustive over body sizes 0..4200 and 2^20 +- 16, generated child lists",
          "Scope::raw vs Scope::new, PackageBuilder vs Package, String vs &'static str, usize vs u64: byte equality, every body size through the PkgLength width boundaries enumerated.",
          "4 §C15", "neither path is trusted; absolute correctness is C06/C07's"),
- "C18": ("directed boundary sweep of 27 narrowing sites at maximum / maximum+1 / far beyond, in two build profiles (overflow checks off and on); oracle: must panic above the maximum, framing oracles of C03/C06 at the maximum",
+ "C18": ("directed boundary sweep of 28 narrowing sites at maximum / maximum+1 / far beyond, in two build profiles (overflow checks off and on); oracle: must panic above the maximum, framing oracles of C03/C06 at the maximum",
          "Every encoded count/length field with a caller-controlled source is driven to its field maximum (control: accepted and correctly framed) and beyond (must panic) in the shipping arithmetic profile and, via a second binary, in the overflow-checking profile.",
          "4 §C18", "sizes needing >= 4 GiB of data are out of reach; the site catalogue is DESIGN §C18's"),
 }
